@@ -1,0 +1,111 @@
+//go:build verif
+
+// Package verifhook contains seams for external verification harnesses.
+// This is the variant with the `verif` build tag set: every hook calls the
+// function installed by the harness, if any.
+package verifhook
+
+import (
+	"context"
+	"sync/atomic"
+	"time"
+)
+
+// Enabled reports if the hooks are compiled in.
+const Enabled = true
+
+type (
+	YieldFunc func(point, name string)
+	NowFunc   func(site string, t time.Time) time.Time
+	SleepFunc func(ctx context.Context, d time.Duration) (handled bool, err error)
+	IntFunc   func(site string, v int) int
+	SkipFunc  func(site string) bool
+)
+
+var (
+	yieldFn atomic.Pointer[YieldFunc]
+	nowFn   atomic.Pointer[NowFunc]
+	sleepFn atomic.Pointer[SleepFunc]
+	intFn   atomic.Pointer[IntFunc]
+	skipFn  atomic.Pointer[SkipFunc]
+)
+
+func SetYield(f YieldFunc) {
+	if f == nil {
+		yieldFn.Store(nil)
+		return
+	}
+	yieldFn.Store(&f)
+}
+
+func SetNow(f NowFunc) {
+	if f == nil {
+		nowFn.Store(nil)
+		return
+	}
+	nowFn.Store(&f)
+}
+
+func SetSleep(f SleepFunc) {
+	if f == nil {
+		sleepFn.Store(nil)
+		return
+	}
+	sleepFn.Store(&f)
+}
+
+func SetInt(f IntFunc) {
+	if f == nil {
+		intFn.Store(nil)
+		return
+	}
+	intFn.Store(&f)
+}
+
+func SetSkip(f SkipFunc) {
+	if f == nil {
+		skipFn.Store(nil)
+		return
+	}
+	skipFn.Store(&f)
+}
+
+// Yield marks a scheduling / decision point.
+func Yield(point, name string) {
+	if f := yieldFn.Load(); f != nil {
+		(*f)(point, name)
+	}
+}
+
+// Now allows overriding a timestamp taken with time.Now().
+func Now(site string, t time.Time) time.Time {
+	if f := nowFn.Load(); f != nil {
+		return (*f)(site, t)
+	}
+	return t
+}
+
+// Sleep allows taking over a context sleep. If handled is false, the caller
+// performs the actual sleep.
+func Sleep(ctx context.Context, d time.Duration) (handled bool, err error) {
+	if f := sleepFn.Load(); f != nil {
+		return (*f)(ctx, d)
+	}
+	return false, nil
+}
+
+// Int allows overriding an integer parameter.
+func Int(site string, v int) int {
+	if f := intFn.Load(); f != nil {
+		return (*f)(site, v)
+	}
+	return v
+}
+
+// Skip reports if an optional, non-functional step must be skipped.
+func Skip(site string) bool {
+	if f := skipFn.Load(); f != nil {
+		return (*f)(site)
+	}
+	return false
+}
